@@ -10,7 +10,7 @@ Init == sc \in {s \in Scenarios(MaxDecl) : WellFormedScenario(s)} /\ done = FALS
 Emit ==
   /\ ~done /\ done' = TRUE /\ UNCHANGED sc
   /\ LET d == Decl(sc) IN
-     PrintT("SCEN " \o ToJson([served |-> sc.served, others |-> SetToSeq(sc.others), c |-> sc.cell.c, sh |-> sc.cell.sh,
+     PrintT("SCEN " \o ToJson([sib |-> sc.sib, served |-> sc.served, others |-> SetToSeq(sc.others), c |-> sc.cell.c, sh |-> sc.cell.sh,
                                role |-> RoleOf(d, sc.served), status |-> ServedCode(sc.served),
                                decl |-> [st \in DOMAIN d |-> d[st]],
                                model_ann |-> SetToSeq(Ann("as_is", d)),
